@@ -1329,3 +1329,80 @@ def ctor_valued_names(fn, module):
         if ok:
             out.add(nm)
     return out
+
+
+def undestructure_class_patterns(fn):
+    """`case Cls(attr=name, other=Sub(x=y))` on a plain subject S becomes `case Cls() if isinstance(S.other, Sub)` with `name`
+    spelled `S.attr` and `y` spelled `S.other.x` in the guard and the arm - the spelling the rules (and the code base
+    before such a clean-up) use.  Only for arms that do not rebind the subject or the bound names."""
+    if not isinstance(fn, (ast.FunctionDef, ast.AsyncFunctionDef)):
+        return fn
+
+    def plain(subject):
+        return isinstance(subject, ast.Name) or (isinstance(subject, ast.Attribute) and plain(subject.value))
+
+    def eligible(m):
+        if not plain(m.subject):
+            return False
+        return any(isinstance(c.pattern, ast.MatchClass) and not c.pattern.patterns and c.pattern.kwd_patterns for c in m.cases)
+    if not any(isinstance(n, ast.Match) and eligible(n) for n in _own_nodes(fn)):
+        return fn
+    work = _relink(_strip(fn), getattr(fn, '_parent', None))
+    changed = False
+    for m in [n for n in _own_nodes(work) if isinstance(n, ast.Match) and eligible(n)]:
+        root = m.subject
+        while isinstance(root, ast.Attribute):
+            root = root.value
+        for c in m.cases:
+            p = c.pattern
+            if not (isinstance(p, ast.MatchClass) and not p.patterns and p.kwd_patterns):
+                continue
+            binds, guards = {}, []
+
+            def walk(pat, base):
+                """False when the pattern has a part this rewrite does not cover."""
+                for attr, sub in zip(pat.kwd_attrs, pat.kwd_patterns):
+                    here = ast.Attribute(value=_strip(base), attr=attr, ctx=ast.Load())
+                    if isinstance(sub, ast.MatchAs) and sub.pattern is None:
+                        if sub.name is not None:
+                            if sub.name in binds:
+                                return False
+                            binds[sub.name] = here
+                    elif isinstance(sub, ast.MatchClass) and not sub.patterns:
+                        guards.append(ast.Call(func=ast.Name(id='isinstance', ctx=ast.Load()), args=[here, _strip(sub.cls)], keywords=[]))
+                        if not walk(sub, here):
+                            return False
+                    elif isinstance(sub, ast.MatchValue):
+                        guards.append(ast.Compare(left=here, ops=[ast.Eq()], comparators=[_strip(sub.value)]))
+                    elif isinstance(sub, ast.MatchSingleton):
+                        guards.append(ast.Compare(left=here, ops=[ast.Is()], comparators=[ast.Constant(value=sub.value)]))
+                    else:
+                        return False
+                return True
+            if not walk(p, m.subject):
+                continue
+            stored = {x.id for st in c.body for x in ast.walk(st) if isinstance(x, ast.Name) and isinstance(x.ctx, ast.Store)} | \
+                {x.name for st in c.body for x in ast.walk(st) if isinstance(x, (ast.MatchAs, ast.MatchStar)) and x.name}
+            if root.id in stored or stored & set(binds):
+                continue
+            # attribute stores through the subject in the arm would change what the names stand for
+            if any(isinstance(x, ast.Attribute) and isinstance(x.ctx, ast.Store) and src_(x).startswith(src_(m.subject) + '.')
+                   for st in c.body for x in ast.walk(st)):
+                continue
+
+            class _S(ast.NodeTransformer):
+                def visit_Name(self, n):
+                    if n.id in binds and isinstance(n.ctx, ast.Load):
+                        return ast.copy_location(_strip(binds[n.id]), n)
+                    return n
+            c.pattern = ast.MatchClass(cls=p.cls, patterns=[], kwd_attrs=[], kwd_patterns=[])
+            g = [_S().visit(c.guard)] if c.guard is not None else []
+            allg = guards + g
+            c.guard = None if not allg else allg[0] if len(allg) == 1 else ast.BoolOp(op=ast.And(), values=allg)
+            c.body = [_S().visit(st) for st in c.body]
+            changed = True
+    if not changed:
+        return fn
+    _relink(work, getattr(fn, '_parent', None))
+    work._normalised = True
+    return work
